@@ -43,7 +43,7 @@ def perturb(e, rnd, lib):
         n = rnd.choice(nodes)
         t = lib.xsd_type_name(type(n))
         table = [a for a in ref.attr_table(t) if a[1] is not None and a[0] != 'name'] if t in ref.ALL else []
-        kind = rnd.choice(['set', 'overwrite', 'remove', 'remove', 'value', 'uncheck', 'refused', 'refused'])
+        kind = rnd.choice(['set', 'overwrite', 'remove', 'remove', 'value', 'uncheck', 'refused', 'refused', 'toggle-edit'])
         if kind in ('set', 'overwrite', 'remove') and table:
             an, at, req = rnd.choice(table)
             key = an.replace('-', '_')
@@ -79,6 +79,21 @@ def perturb(e, rnd, lib):
         elif kind == 'uncheck':
             n.xsd_check = False
             done.append('uncheck %s' % n.name)
+        elif kind == 'toggle-edit':
+            # checking switched off, children edited, checking switched on again (the public xsd_check setter)
+            if t in ref.DFAS and n.xsd_check:
+                n.xsd_check = False
+                kids = n.get_children(False)
+                what = []
+                if kids and rnd.random() < 0.6:
+                    k = rnd.choice(kids)
+                    if lib.call(n.remove, k)[0] == 'ok':
+                        what.append('-' + k.name)
+                s2 = rnd.choice(ref.DFAS[t].alphabet)
+                if lib.call(n.add_child, lib.make(lib.child_cls(s2)))[0] == 'ok':
+                    what.append('+' + s2)
+                n.xsd_check = True
+                done.append('toggle-edit %s %s' % (n.name, ' '.join(what)))
         elif kind == 'refused':
             # an assignment the library refuses (value or attribute): the tree stays reachable through the API
             if rnd.random() < 0.5:
@@ -102,8 +117,15 @@ def mutate_tree(e, rnd, lib):
     for _ in range(6):
         n = rnd.choice(nodes)
         t = lib.xsd_type_name(type(n))
-        kind = rnd.choice(['attr', 'value', 'remove-child', 'add-child'])
-        if kind == 'attr' and t in ref.ALL:
+        kind = rnd.choice(['attr', 'attr-none', 'attr-none', 'value', 'remove-child', 'add-child'])
+        if kind == 'attr-none':
+            present = [a for a in n.attributes if a != 'name' and ':' not in a]
+            if present:
+                an = rnd.choice(sorted(present))
+                req = t in ref.ALL and any(a[0] == an and a[2] for a in ref.attr_table(t))
+                if lib.call(setattr, n, an.replace('-', '_'), None)[0] == 'ok':
+                    return 'attr-none %s/@%s%s' % (n.name, an, ' (required)' if req else '')
+        elif kind == 'attr' and t in ref.ALL:
             table = [a for a in ref.attr_table(t) if a[1] is not None and a[0] != 'name']
             if table:
                 an, at, _ = rnd.choice(table)
